@@ -49,6 +49,14 @@ def _deleting_loop(loop_ev):
     return False
 
 
+def _in_sweep(e, R):
+    """the per-app sweep itself or a helper method of the same class that it calls"""
+    if e["func"] == R.sweep_app:
+        return True
+    cls = R.sweep_app.split(".")[0]
+    return R.sweep_app in e["stack"] and e["func"].split(".")[0] == cls
+
+
 def run(ctx):
     model = ctx.model
     shared.import_rule(ctx, "C06", ("R06.scope",), "R13.scope",
@@ -105,7 +113,7 @@ def run(ctx):
     by_rows = {}      # rows term of a SELECT FROM mailboxes -> loops over it
     for p in timer:
         for e, loops in all_events(p, ("loop",)):
-            if id(e) in done or e["func"] != R.sweep_app or not e["iter"]:
+            if id(e) in done or not _in_sweep(e, R) or not e["iter"]:
                 continue
             done.add(id(e))
             it = strip_wrappers(e["iter"])
